@@ -530,6 +530,8 @@ CHECKS['C04'] = dict(
         dict(h='h_c04.c', mode='rt', flavour='prod-fixed', ref='both', n={'quick': 1200, 'thorough': 20000}),
         dict(h='h_c04.c', mode='rt', flavour='asan', ref='both', n={'quick': 160, 'thorough': 3000}),
         dict(h='h_c04.c', mode='ms', flavour='prod', ref='both', n={'quick': 1200, 'thorough': 20000}),
+        dict(h='h_c04.c', mode='switch', flavour='prod', ref='both', n={'quick': 1600, 'thorough': 30000}),
+        dict(h='h_c04.c', mode='switch', flavour='prod-fixed', ref='both', n={'quick': 480, 'thorough': 10000}),
     ],
     min_nontrivial={'quick': 400, 'thorough': 1000},
     min_counters={'quick': {'roundtrips': 3500, 'delays_checked': 1200, 'bands_checked': 40000, 'ms_channels_checked': 4000}, 'thorough': {'roundtrips': 15000}},
